@@ -4,7 +4,7 @@
 Exit codes: 0 held; 1 violation (VIOLATION line printed); 2 undecided for a
 structural reason (function not found / outside the subset); 3 checker failure
 (crash, vacuity guard, obligation count below the lock)."""
-import argparse, importlib, json, multiprocessing as mp, os, subprocess, sys, time, traceback
+import argparse, hashlib, importlib, json, multiprocessing as mp, os, subprocess, sys, time, traceback
 
 HERE = os.path.dirname(os.path.abspath(__file__))
 sys.path.insert(0, HERE)
@@ -113,6 +113,7 @@ def _ran_clean(detail):
 
 
 _SHA = {}
+REFSRC = {}
 
 
 def _current_sha(c):
@@ -207,6 +208,8 @@ def main():
         rc = check_property(prop, cs, args, seed, lock, write_lock=(args.prop == "lock"))
         rc_all = max(rc_all, rc)
     if args.prop == "lock":
+        with open(engine.REFERENCE_FILE, "w") as f:
+            json.dump(REFSRC, f, indent=0, sort_keys=True)
         with open(LOCK, "w") as f:
             json.dump(lock, f, indent=1, sort_keys=True)
         print("lock written:", {k: len(v) for k, v in lock.items()})
@@ -237,6 +240,25 @@ def check_property(prop, cs, args, seed, lock, write_lock=False):
     by_name = {ob["name"]: ob for ob in obligations}
     for r in results:
         by_name[r["name"]].update(r)
+    # an obligation whose SMT text is byte-identical to one that was discharged when the lock was written and that now ends
+    # "unknown" is a resource problem (loaded machine), not a change of the code: retried with long budgets and little
+    # parallelism; if it stays unknown it is reported as a checker failure (exit 3), never as a violation
+    proved_before = set(lock.get("_proved", {}).get(prop, []))
+    for ob in obligations:
+        ob["smt_hash"] = hashlib.sha1((ob.get("smt2") or "").encode()).hexdigest()[:12] if not ob.get("trivial") else None
+    retry = [ob for ob in obligations if ob.get("status") == "unknown" and ob.get("smt_hash") in proved_before]
+    if retry and not write_lock:
+        with mp.Pool(min(4, len(retry))) as pool:
+            again = pool.map(engine.safe_discharge_long, retry, chunksize=1)
+        for r in again:
+            ob = by_name[r["name"]]
+            if r["status"] == "discharged":
+                ob.update(r)
+                ob["backend"] = "%s (retried)" % r["backend"]
+            elif r["status"] == "sat":
+                ob.update(r)
+            else:
+                ob["status"] = "resource"
 
     extra = {"bounded": [], "tables": [], "failures": []}
     for c in mine:
@@ -255,8 +277,8 @@ def check_property(prop, cs, args, seed, lock, write_lock=False):
         by_group_owner[ob["group"]] = cgroup_of.get(ob["contract"], ob["contract"])
     discharged = [ob for ob in obligations if ob.get("status") == "discharged"]
     failed = [ob for ob in obligations if ob.get("status") != "discharged"]
-    n_err = [ob for ob in obligations if ob.get("status") in ("error", "vacuous")]
-    failed = [ob for ob in failed if ob.get("status") != "vacuous"]
+    n_err = [ob for ob in obligations if ob.get("status") in ("error", "vacuous", "resource")]
+    failed = [ob for ob in failed if ob.get("status") not in ("vacuous", "resource")]
 
     rc = 0
     messages = []
@@ -282,7 +304,7 @@ def check_property(prop, cs, args, seed, lock, write_lock=False):
             print(g["error"])
     if n_err:
         rc = max(rc, 3)
-        messages.append("solver errors / vacuous preconditions: %d %s" % (len(n_err), [o["name"] for o in n_err][:3]))
+        messages.append("solver errors / vacuous preconditions / obligations proved before that now exhaust the solver budget: %d %s" % (len(n_err), [o["name"] for o in n_err][:3]))
     # ---- vacuity guard: per contract group, the number of obligation groups generated
     # must not fall below the committed lock (80% for the shape-enumerated groups)
     gcount = {}
@@ -294,9 +316,13 @@ def check_property(prop, cs, args, seed, lock, write_lock=False):
         gcount[owner] = gcount.get(owner, 0) + 1
     if write_lock:
         lock[prop] = gcount
+        lock.setdefault("_proved", {})[prop] = sorted({ob["smt_hash"] for ob in obligations if ob.get("status") == "discharged" and ob.get("smt_hash")
+                                                       and cs[ob["contract"]].source is None})
         for g in gens:
             if "error" not in g:
                 lock.setdefault("_sha1", {})[g["contract"]] = g["info"]["sha1"]
+                if g["info"].get("outer_unparsed"):
+                    REFSRC[g["contract"]] = {"sha1": g["info"]["sha1"], "outer": g["info"]["outer_unparsed"]}
     else:
         want = lock.get(prop, {})
         if not args.only:
@@ -345,7 +371,10 @@ def check_property(prop, cs, args, seed, lock, write_lock=False):
             print("KNOWN-FINDING: property=%s %s" % (prop, matched["what"] or matched["raw"]))
             continue
         statement_level = [f for f in fl if ("/S:" in f["name"] or "S:" in f["name"].split("/")[-1] or "/raises/" in f["name"] or "/ownership/" in f["name"] or "/C02:" in f["name"])]
-        if not found and not statement_level:
+        helper_failed = [f for f in fl if f not in statement_level]
+        # a statement-level obligation proved UNDER a loop invariant / hint that itself no longer holds for this code says nothing:
+        # when helper clauses fail too, a violation needs a failing input replayed on the real code
+        if not found and (not statement_level or helper_failed):
             # only helper obligations (C: invariants, hints, lemmas) fail and the bounded native search of the real code finds
             # no violation of the statement: the proof no longer fits the code -> undecided, not an alarm
             ran = _ran_clean(detail)
